@@ -158,6 +158,22 @@ class ItemNumDecode:
     def raises():
         return {}
 
+    def samples(rnd, cls, k):
+        import struct
+        import spec.e5ref as R
+        size = e5.num_size(cls._hsms_type)
+        code = {v[0]: n for n, v in R.NUM.items()}[cls._hsms_type] if hasattr(R, "NUM") else None
+        for _ in range(30):
+            n = rnd.randint(0, 4)
+            if cls._hsms_type in (0o44, 0o40):
+                fmt = ">f" if size == 4 else ">d"
+                big = 3.4028234663852886e38 if size == 4 else 1.7976931348623157e308
+                payload = b"".join(struct.pack(fmt, rnd.choice((0.0, -1.5, 2.0 ** -130, big, -big, 1e-45))) for _ in range(n))
+            else:
+                payload = bytes(rnd.choice((0, 1, 0x7F, 0x80, 0xFF, rnd.getrandbits(8))) for _ in range(n * size))
+            tail = bytes(rnd.getrandbits(8) for _ in range(rnd.choice((0, 3))))
+            yield {"cls": cls, "data": bytes([cls._hsms_type * 4 + k]) + len(payload).to_bytes(k, "big") + payload + tail}
+
     def ensures(cls, data, result, case):
         k = case["k"]
         fc = cls._hsms_type
